@@ -52,6 +52,9 @@ class Project:
                 f.write("disable_git = true\n")
             with open(os.path.join(scratch_root, "COND"), "w") as f:
                 f.write("run_command(name='outer', run='exit 3')\n")
+        # surroundings of the cond PROCESS (environment variables that only change rendering, CPU affinity)
+        self.proc_env = dict(hostile.get("env") or {})
+        self.proc = {"one_cpu": True, "cpu_index": hostile.get("cpu_index", 0)} if hostile.get("one_cpu") else None
         self._pos = 0
 
     def write_scn(self):
@@ -59,7 +62,10 @@ class Project:
             json.dump({"log": self.log, "gates": self.gates, "scripts": self.scripts}, f)
 
     def cond(self, argv, cwd="", run_id=None, **kw):
-        env = dict(kw.pop("env_extra", {}) or {})
+        env = dict(self.proc_env)
+        env.update(kw.pop("env_extra", {}) or {})
+        if self.proc and "proc" not in kw:
+            kw["proc"] = self.proc
         if run_id is not None:
             env["CVERIF_RUN_ID"] = str(run_id)
         return cli.run_cli(argv, os.path.join(self.root, cwd), self.scratch, env_extra=env, **kw)
@@ -94,8 +100,17 @@ class Project:
         return os.path.join(self.root, "cond-out", pkg, name + ".task" + ("" if version is None else ".%s" % version))
 
 
-def hostile_choice(rng, p_root=0.25, p_link=0.2, p_outer=0.15):
-    return {"odd_root": rng.random() < p_root, "condout_symlink": rng.random() < p_link, "outer_project": rng.random() < p_outer}
+PROC_ENVS = [{"NO_COLOR": "1"}, {"TERM": "dumb"}, {"NO_COLOR": "1", "TERM": "dumb", "COLUMNS": "12"}, {"NO_COLOR": ""}, {"COLUMNS": "1", "LINES": "1"}, {"FORCE_COLOR": "1"}, {"PYTHONUNBUFFERED": "1"}]
+
+
+def hostile_choice(rng, p_root=0.25, p_link=0.2, p_outer=0.15, p_env=0.2, p_cpu=0.1):
+    h = {"odd_root": rng.random() < p_root, "condout_symlink": rng.random() < p_link, "outer_project": rng.random() < p_outer}
+    if rng.random() < p_env:
+        h["env"] = dict(rng.choice(PROC_ENVS))
+    if rng.random() < p_cpu:
+        h["one_cpu"] = True
+        h["cpu_index"] = rng.randrange(64)
+    return h
 
 
 def read_rows(root):
